@@ -5,6 +5,9 @@
 #include <csignal>
 #include <cstdlib>
 #include <map>
+#include <pthread.h>
+#include <sched.h>
+#include <semaphore.h>
 #include <sys/mman.h>
 #include <unistd.h>
 extern "C" {
@@ -35,6 +38,8 @@ int engine_qcap() { return (int)CAT_UNSOLICITED_CMD_BUFFER_SIZE; }
 bool engine_asan() { return GUARD == 0; }
 
 namespace {
+
+static const char *e_lock_tag();
 
 struct Block {
         unsigned char *base = nullptr; // allocation
@@ -100,13 +105,47 @@ struct Engine : MemView {
         int depth = 0;
         long lock_calls = 0, unlock_calls = 0;
         bool in_api = false;
-        struct {
+        // threads (C17): real pthreads, exactly one runs at a time, the seeded scheduler decides who
+        struct ApiRec {
                 const char *name;
                 int lock_seen, lock_failed, unlock_seen, unlock_failed;
                 uint64_t cb0;
                 uint64_t memhash;
                 bool have_hash;
-        } api;
+        };
+        ApiRec api;
+        struct Thr {
+                pthread_t th;
+                sem_t sem;
+                int state = 0; // 0 runnable, 1 blocked on the mutex, 2 done
+                std::vector<const Op *> ops;
+                ApiRec api_save;
+                bool in_api_save = false;
+                bool used = false;
+        };
+        bool thr_mode = false;
+        Thr thr[12];
+        int cur = 0;
+        int owner = -1;
+        Rng sched;
+        uint64_t switches = 0, yields = 0, blocked_on_mutex = 0;
+        sem_t main_sem;
+        bool ls_protected_now = false;
+        bool yield_pending = false;
+        void flush_yield()
+        {
+                if (thr_mode && yield_pending) {
+                        yield_pending = false;
+                        yield_point();
+                }
+        }
+        void yield_point();
+        void yield_blocked();
+        void switch_to(int next);
+        int pick_runnable(bool include_self);
+        void thread_body(int id);
+        void run_threads();
+        void join_others();
         // livelock detection
         uint64_t last_state_hash = 0;
         bool last_state_valid = false;
@@ -166,6 +205,9 @@ struct Engine : MemView {
 
 Engine *E = nullptr;
 
+// with real threads an unlocked access is also a data race (C17)
+static const char *e_lock_tag() { return E && E->plan.sched != 0 ? "C16,C17" : "C16"; }
+
 // ------------------------------------------------------------------ lockset by page protection
 
 // One persistent arena per process: page 0 ends with the three configuration pointers of the
@@ -201,6 +243,9 @@ void Engine::ls_protect(bool on)
 {
         if (!ls_on)
                 return;
+        if (thr_mode && on == ls_protected_now)
+                return;
+        ls_protected_now = on;
         es.lockset_switches++;
         mprotect(g_prot_p, g_prot_len, on ? PROT_NONE : (PROT_READ | PROT_WRITE));
 }
@@ -275,12 +320,13 @@ static char *dup_str(Engine *e, const std::string &s)
 static void cb_check_lock(const char *what)
 {
         if (E->plan.mutex && E->depth != 1)
-                E->mon.fail("C16", "callback-outside-lock", std::string(what) + " invoked while the mutex is not held");
+                E->mon.fail(e_lock_tag(), "callback-outside-lock", std::string(what) + " invoked while the mutex is not held");
 }
 
 static int io_read(char *ch)
 {
         Engine *e = E;
+        e->yield_point();
         cb_check_lock("io read");
         bool ready = true;
         if (e->force_rx_refuse)
@@ -329,6 +375,7 @@ static int io_read(char *ch)
 static int io_write(char ch)
 {
         Engine *e = E;
+        e->yield_point();
         cb_check_lock("io write");
         e->callbacks++;
         bool ok = true;
@@ -434,6 +481,7 @@ static int lookup_cmd(const struct cat_command *cmd)
 static cat_return_state h_write(const struct cat_command *cmd, const uint8_t *data, const size_t data_size, const size_t args_num)
 {
         Engine *e = E;
+        e->yield_point();
         cb_check_lock("write handler");
         e->callbacks++;
         e->app_callbacks++;
@@ -458,6 +506,7 @@ static cat_return_state h_write(const struct cat_command *cmd, const uint8_t *da
 static cat_return_state h_run(const struct cat_command *cmd)
 {
         Engine *e = E;
+        e->yield_point();
         cb_check_lock("run handler");
         e->callbacks++;
         e->app_callbacks++;
@@ -472,6 +521,7 @@ static cat_return_state h_run(const struct cat_command *cmd)
 static cat_return_state h_rt(int kind, const struct cat_command *cmd, uint8_t *data, size_t *data_size, const size_t max)
 {
         Engine *e = E;
+        e->yield_point();
         cb_check_lock("read/test handler");
         e->callbacks++;
         e->app_callbacks++;
@@ -511,6 +561,7 @@ static cat_return_state h_test(const struct cat_command *cmd, uint8_t *data, siz
 static int v_cb(const struct cat_variable *var, int vkind, size_t wsize)
 {
         Engine *e = E;
+        e->yield_point();
         cb_check_lock("variable callback");
         e->callbacks++;
         e->app_callbacks++;
@@ -542,9 +593,24 @@ static int m_lock(void)
         long k = e->lock_calls++;
         e->log.add((uint64_t)0x700);
         if (!e->in_api)
-                e->mon.fail("C16", "lock-outside-api-call", "mutex lock called outside any public API call");
+                e->mon.fail(e_lock_tag(), "lock-outside-api-call", "mutex lock called outside any public API call");
         if (e->depth != 0) {
-                e->mon.fail("C16", "lock-taken-twice", std::string("mutex lock called while already held in ") + (e->api.name ? e->api.name : "?"));
+                e->mon.fail(e_lock_tag(), "lock-taken-twice", std::string("mutex lock called while already held in ") + (e->api.name ? e->api.name : "?"));
+                return 0;
+        }
+        if (e->thr_mode) {
+                // another thread may get in first; if the mutex is taken, park until it is released
+                e->yield_point();
+                while (e->owner != -1) {
+                        e->blocked_on_mutex++;
+                        e->thr[e->cur].state = 1;
+                        e->yield_blocked();
+                }
+                e->owner = e->cur;
+                e->depth = 1;
+                e->ls_protect(false);
+                if (e->api.name && !strcmp(e->api.name, "cat_service"))
+                        e->mon.on_service_begin();
                 return 0;
         }
         if (k == e->plan.lockfail) {
@@ -555,6 +621,8 @@ static int m_lock(void)
         }
         e->depth = 1;
         e->ls_protect(false);
+        if (e->api.name && !strcmp(e->api.name, "cat_service"))
+                e->mon.on_service_begin();
         return 0;
 }
 
@@ -566,11 +634,21 @@ static int m_unlock(void)
         long k = e->unlock_calls++;
         e->log.add((uint64_t)0x701);
         if (e->depth != 1) {
-                e->mon.fail("C16", "unlock-without-lock", std::string("mutex unlock called while not held in ") + (e->api.name ? e->api.name : "?"));
+                e->mon.fail(e_lock_tag(), "unlock-without-lock", std::string("mutex unlock called while not held in ") + (e->api.name ? e->api.name : "?"));
                 return 0;
         }
         e->ls_protect(true);
         e->depth = 0;
+        if (e->thr_mode) {
+                e->owner = -1;
+                for (int t = 0; t < 12; t++)
+                        if (e->thr[t].used && e->thr[t].state == 1)
+                                e->thr[t].state = 0;
+                // the hand-off happens once the caller has told the monitor what the call returned
+                // (API call + bookkeeping are one atomic step of the simulation)
+                e->yield_pending = true;
+                return 0;
+        }
         if (k == e->plan.unlockfail) {
                 e->api.unlock_failed++;
                 e->es.f_unlock_fail++;
@@ -581,6 +659,190 @@ static int m_unlock(void)
 }
 
 } // namespace
+
+// ------------------------------------------------------------------ parked threads (C17)
+
+int Engine::pick_runnable(bool include_self)
+{
+        int cand[12], n = 0;
+        for (int t = 0; t < 12; t++)
+                if (thr[t].used && thr[t].state == 0 && (include_self || t != cur))
+                        cand[n++] = t;
+        if (n == 0)
+                return -1;
+        return cand[sched.below((uint64_t)n)];
+}
+
+void Engine::switch_to(int next)
+{
+        int me = cur;
+        thr[me].api_save = api;
+        thr[me].in_api_save = in_api;
+        cur = next;
+        api = thr[next].api_save;
+        in_api = thr[next].in_api_save;
+        depth = owner == next ? 1 : 0;
+        // parser state is accessible only while the *incoming* thread holds the mutex
+        ls_protect(depth == 0);
+        switches++;
+        log.add((uint64_t)0xD00 + (uint64_t)next);
+        sem_post(&thr[next].sem);
+        sem_wait(&thr[me].sem);
+}
+
+void Engine::yield_point()
+{
+        if (!thr_mode)
+                return;
+        yields++;
+        if (yields > 2000000)
+                return;
+        int next = pick_runnable(true);
+        if (next >= 0 && next != cur)
+                switch_to(next);
+}
+
+void Engine::yield_blocked()
+{
+        // the running thread waits for the mutex: somebody else has to run
+        int next = pick_runnable(false);
+        if (next < 0) {
+                mon.fail("C17", "deadlock", "every thread is waiting for the mutex", true);
+                owner = -1;
+                for (int t = 0; t < 12; t++)
+                        if (thr[t].used && thr[t].state == 1)
+                                thr[t].state = 0;
+                return;
+        }
+        switch_to(next);
+}
+
+void Engine::join_others()
+{
+        while (true) {
+                bool all = true;
+                for (int t = 1; t < 12; t++)
+                        if (thr[t].used && thr[t].state != 2)
+                                all = false;
+                if (all)
+                        return;
+                int next = pick_runnable(false);
+                if (next < 0) {
+                        mon.fail("C17", "deadlock", "application threads are blocked although the service thread does not hold the mutex", true);
+                        return;
+                }
+                switch_to(next);
+        }
+}
+
+void Engine::thread_body(int id)
+{
+        sem_wait(&thr[id].sem);
+        for (const Op *o : thr[id].ops) {
+                if (mon.viol.set() || es.overrun)
+                        break;
+                for (int64_t i = 0; i < o->c && id != 0; i++)
+                        yield_point(); // the application thread does something else for a while
+                yield_point();
+                exec(*o);
+        }
+        if (id == 0 && !mon.viol.set())
+                join_others();
+        thr[id].state = 2;
+        int next = pick_runnable(false);
+        if (next < 0) {
+                bool all = true;
+                for (int t = 0; t < 12; t++)
+                        if (thr[t].used && thr[t].state != 2)
+                                all = false;
+                if (!all) {
+                        mon.fail("C17", "deadlock", "remaining threads are all waiting for the mutex", true);
+                        owner = -1;
+                        for (int t = 0; t < 12; t++)
+                                if (thr[t].used && thr[t].state == 1)
+                                        thr[t].state = 0;
+                        next = pick_runnable(false);
+                }
+        }
+        if (next < 0) {
+                sem_post(&main_sem);
+                return;
+        }
+        thr[id].api_save = api;
+        cur = next;
+        api = thr[next].api_save;
+        in_api = thr[next].in_api_save;
+        depth = owner == next ? 1 : 0;
+        ls_protect(depth == 0);
+        log.add((uint64_t)0xD00 + (uint64_t)next);
+        sem_post(&thr[next].sem);
+}
+
+struct ThrArg {
+        Engine *e;
+        int id;
+};
+static void *thr_main(void *a)
+{
+        ThrArg *ta = (ThrArg *)a;
+        ta->e->thread_body(ta->id);
+        return nullptr;
+}
+
+void Engine::run_threads()
+{
+        thr_mode = true;
+        sched.reseed(plan.sched);
+        sem_init(&main_sem, 0, 0);
+        thr[0].used = true;
+        for (const Op &o : plan.ops) {
+                thr[o.thr].used = true;
+                thr[o.thr].ops.push_back(&o);
+        }
+        ThrArg args[12];
+        memset(&api, 0, sizeof api);
+        // all threads on the CPU of the creating thread: only one runs at a time anyway, and hand-offs
+        // between CPUs are an order of magnitude slower
+        int cpu = sched_getcpu();
+        if (cpu >= 0) {
+                cpu_set_t cs;
+                CPU_ZERO(&cs);
+                CPU_SET(cpu, &cs);
+                sched_setaffinity(0, sizeof cs, &cs);
+        }
+        for (int t = 0; t < 12; t++) {
+                if (!thr[t].used)
+                        continue;
+                sem_init(&thr[t].sem, 0, 0);
+                thr[t].api_save = api;
+                args[t].e = this;
+                args[t].id = t;
+                pthread_attr_t at;
+                pthread_attr_init(&at);
+                pthread_attr_setstacksize(&at, 256 * 1024);
+                if (cpu >= 0) {
+                        cpu_set_t cs;
+                        CPU_ZERO(&cs);
+                        CPU_SET(cpu, &cs);
+                        pthread_attr_setaffinity_np(&at, sizeof cs, &cs);
+                }
+                pthread_create(&thr[t].th, &at, thr_main, &args[t]);
+                pthread_attr_destroy(&at);
+        }
+        ls_protected_now = true;
+        int first = pick_runnable(true);
+        cur = first;
+        depth = 0;
+        sem_post(&thr[first].sem);
+        sem_wait(&main_sem);
+        for (int t = 0; t < 12; t++)
+                if (thr[t].used) {
+                        pthread_join(thr[t].th, nullptr);
+                        sem_destroy(&thr[t].sem);
+                }
+        sem_destroy(&main_sem);
+        thr_mode = false;
+}
 
 // ------------------------------------------------------------------ materialise
 
@@ -780,42 +1042,42 @@ void Engine::end_api(int ret, bool locking)
                 return;
         std::string fn = api.name;
         if (ls_on && g_ls_fault) {
-                mon.fail("C16", "state-accessed-without-lock", fn + ": parser state or working buffer touched while the mutex was not held");
+                mon.fail(e_lock_tag(), "state-accessed-without-lock", fn + ": parser state or working buffer touched while the mutex was not held");
                 g_ls_fault = 0;
                 ls_protect(depth == 0);
                 return;
         }
         if (api.lock_seen != 1) {
-                mon.fail("C16", "lock-call-count", fn + " called lock " + std::to_string(api.lock_seen) + " times");
+                mon.fail(e_lock_tag(), "lock-call-count", fn + " called lock " + std::to_string(api.lock_seen) + " times");
                 return;
         }
         if (depth != 0) {
-                mon.fail("C16", "returned-holding-lock", fn + " returned while still holding the mutex");
+                mon.fail(e_lock_tag(), "returned-holding-lock", fn + " returned while still holding the mutex");
                 depth = 0;
                 return;
         }
         if (api.lock_failed) {
                 if (ret != CAT_STATUS_ERROR_MUTEX_LOCK)
-                        mon.fail("C16", "lock-failure-not-reported", fn + " returned " + std::to_string(ret) + " although locking failed");
+                        mon.fail(e_lock_tag(), "lock-failure-not-reported", fn + " returned " + std::to_string(ret) + " although locking failed");
                 else if (api.unlock_seen != 0)
-                        mon.fail("C16", "unlock-after-failed-lock", fn + " called unlock although locking failed");
+                        mon.fail(e_lock_tag(), "unlock-after-failed-lock", fn + " called unlock although locking failed");
                 else if (callbacks != api.cb0)
-                        mon.fail("C16", "callback-after-failed-lock", fn + " invoked callbacks although locking failed");
+                        mon.fail(e_lock_tag(), "callback-after-failed-lock", fn + " invoked callbacks although locking failed");
                 else if (api.have_hash && mem_hash() != api.memhash)
-                        mon.fail("C16", "state-changed-after-failed-lock", fn + " modified the parser object or buffers although locking failed");
+                        mon.fail(e_lock_tag(), "state-changed-after-failed-lock", fn + " modified the parser object or buffers although locking failed");
                 return;
         }
         if (api.unlock_seen != 1) {
-                mon.fail("C16", "unlock-call-count", fn + " called unlock " + std::to_string(api.unlock_seen) + " times after a successful lock");
+                mon.fail(e_lock_tag(), "unlock-call-count", fn + " called unlock " + std::to_string(api.unlock_seen) + " times after a successful lock");
                 return;
         }
         if (api.unlock_failed) {
                 if (ret != CAT_STATUS_ERROR_MUTEX_UNLOCK)
-                        mon.fail("C16", "unlock-failure-not-reported", fn + " returned " + std::to_string(ret) + " although unlocking failed");
+                        mon.fail(e_lock_tag(), "unlock-failure-not-reported", fn + " returned " + std::to_string(ret) + " although unlocking failed");
                 return;
         }
         if (ret == CAT_STATUS_ERROR_MUTEX_LOCK || ret == CAT_STATUS_ERROR_MUTEX_UNLOCK)
-                mon.fail("C16", "spurious-mutex-error", fn + " returned a mutex error although lock and unlock succeeded");
+                mon.fail(e_lock_tag(), "spurious-mutex-error", fn + " returned a mutex error although lock and unlock succeeded");
 }
 
 int Engine::api_service()
@@ -954,7 +1216,8 @@ int Engine::service_once()
         uint64_t cb0 = callbacks;
         size_t out0 = es.tx_bytes;
         (void)out0;
-        mon.on_service_begin();
+        if (!plan.mutex)
+                mon.on_service_begin();
         int st = api_service();
         es.svc_calls++;
         if (st == CAT_STATUS_OK)
@@ -964,7 +1227,7 @@ int Engine::service_once()
         mon.on_service_end(st);
         check_ro();
         if (ls_on && g_ls_fault && !mon.dead()) {
-                mon.fail("C16", "state-accessed-without-lock", "parser state or working buffer touched while the mutex was not held");
+                mon.fail(e_lock_tag(), "state-accessed-without-lock", "parser state or working buffer touched while the mutex was not held");
                 g_ls_fault = 0;
         }
         // exact livelock detection: a BUSY call that made no callback and left object and
@@ -986,6 +1249,7 @@ int Engine::service_once()
         }
         if (st == CAT_STATUS_OK && plan.probe_ok && !mon.dead())
                 probe();
+        flush_yield();
         return st;
 }
 
@@ -996,7 +1260,8 @@ void Engine::probe()
                 return;
         uint64_t app0 = app_callbacks, tx0 = es.tx_bytes + es.f_write_refused;
         force_rx_refuse = true;
-        mon.on_service_begin();
+        if (!plan.mutex)
+                mon.on_service_begin();
         int st = api_service();
         force_rx_refuse = false;
         es.svc_calls++;
@@ -1021,7 +1286,7 @@ void Engine::probe()
 void Engine::do_trigger(int cmd, int type)
 {
         int full = 99;
-        if (plan.observe && !(plan.mutex && depth != 0))
+        if (plan.observe && !(plan.mutex && depth != 0) && !thr_mode)
                 full = api_full();
         if (plan.mutex && depth != 0)
                 return; // plans with a mutex never call locking APIs from handlers
@@ -1032,7 +1297,7 @@ void Engine::do_trigger(int cmd, int type)
                 es.f_queue_full++;
         last_state_valid = false;
         mon.on_trigger(cmd, type, r, full);
-        if (plan.observe && !mon.dead() && depth == 0)
+        if (plan.observe && !mon.dead() && depth == 0 && !thr_mode)
                 mon.on_buffered(cmd, type, api_buffered(cmd, type));
 }
 
@@ -1216,9 +1481,22 @@ void Engine::exec(const Op &o)
                 }
                 break;
         case OP_DRAIN:
+                if (thr_mode)
+                        join_others();
                 drain();
                 break;
+        case OP_QAPI:
+                if (mon.dead())
+                        break;
+                if (o.a == 0)
+                        mon.on_busy(api_busy());
+                else if (o.a == 1)
+                        mon.on_hold_query(api_hold());
+                else
+                        api_full();
+                break;
         }
+        flush_yield();
 }
 
 // C07: AT<cmd>? -> take the text after "NAME=" -> scramble variables -> AT<cmd>=<text> -> compare
@@ -1305,11 +1583,14 @@ RunResult run_plan(const Plan &p, const RunOpts &o)
         e.materialise();
         if (!o.monitor)
                 e.mon.off = true;
-        for (const Op &op : p.ops) {
-                if ((e.mon.viol.set()) || e.es.overrun)
-                        break;
-                e.exec(op);
-        }
+        if (p.sched != 0 && p.mutex) {
+                e.run_threads();
+        } else
+                for (const Op &op : p.ops) {
+                        if ((e.mon.viol.set()) || e.es.overrun)
+                                break;
+                        e.exec(op);
+                }
         if (e.mon.stray)
                 e.mon.classify_stray();
         if (!e.mon.viol.set() && GUARD) {
@@ -1320,7 +1601,9 @@ RunResult run_plan(const Plan &p, const RunOpts &o)
                 }
         }
         if (e.ls_on && g_ls_fault && !e.mon.viol.set())
-                e.mon.fail("C16", "state-accessed-without-lock", "parser state or working buffer touched while the mutex was not held", true);
+                e.mon.fail(e_lock_tag(), "state-accessed-without-lock", "parser state or working buffer touched while the mutex was not held", true);
+        e.es.thread_switches = e.switches;
+        e.es.blocked_on_mutex = e.blocked_on_mutex;
         r.viol = e.mon.viol;
         r.mon = e.mon.st;
         r.eng = e.es;
